@@ -1,7 +1,7 @@
 """Helpers shared by the rule modules."""
 import ast
 
-from ..engine.pattern import find, first, has, match  # noqa: F401
+from ..engine.pattern import find, first, has, match, inert, strip_inert, _ids  # noqa: F401
 
 
 def nodoc(body):
@@ -14,3 +14,33 @@ def nodoc(body):
 
 def src_of(stmts):
     return [ast.unparse(s) for s in nodoc(list(stmts))]
+
+
+def core(block, pred=None):
+    """The statements of a block that matter: those satisfying *pred* (all
+    non-trivial ones when pred is None) plus every statement that is not
+    inert with respect to them.  `core(body, pred) == [the one statement]`
+    is the robust way of saying "the body does just this"."""
+    block = nodoc(list(block))
+    if pred is None:
+        keep = [s for s in block if not isinstance(s, ast.Pass)]
+        # drop statements inert w.r.t. all the others
+        out = []
+        for s in keep:
+            others = [o for o in keep if o is not s]
+            ids = set()
+            for o in others:
+                ids |= _ids(o)
+            if others and inert(s, ids) and isinstance(s, (ast.Assign, ast.AnnAssign, ast.Pass)) \
+                    and not any(isinstance(x, ast.Call) for x in ast.walk(s)):
+                continue
+            out.append(s)
+        return out
+    keep = [s for s in block if pred(s)]
+    return strip_inert(block, keep)
+
+
+def last_effective(block):
+    """Last statement of a block that is not an inert trailer."""
+    c = core(block)
+    return c[-1] if c else None
